@@ -148,13 +148,11 @@ func (r *uvarintReader) ReadByte() (byte, error) {
 func OffsetAndSizeAndSlotSliceFromBytes(buf []byte) ([]OffsetAndSizeAndSlot, error) {
 	r := &uvarintReader{buf: buf}
 	oass := make([]OffsetAndSizeAndSlot, 0)
-	for {
+	for r.pos < len(r.buf) {
 		oas := OffsetAndSizeAndSlot{}
 		err := oas.FromReader(r)
 		if err != nil {
-			if errors.Is(err, io.EOF) {
-				break
-			}
+			// the input ended (or is malformed) inside an entry
 			return nil, fmt.Errorf("failed to parse offset and size: %w", err)
 		}
 		oass = append(oass, oas)
